@@ -329,3 +329,352 @@ Section Ladder.
         unfold s2. rewrite (proj2 (L s1)) by assumption. unfold s1. apply fapp_other. now rewrite HT.
   Qed.
 End Ladder.
+
+(* ------------------------------------------------------------------ 5. Lemma 7.3 *)
+Lemma lemma73 A B f0 t p1 p2 :
+  ~ In f0 A -> ~ In f0 B -> ~ In t A -> ~ In t B -> f0 <> t ->
+  (forall s q, frun p1 s q = fapp (A, f0) s q) ->
+  (forall s q, frun p2 s q = fapp (B ++ [f0], t) s q) ->
+  forall s q, frun ((p1 ++ p2) ++ (p1 ++ p2)) s q = fapp (A ++ B, t) s q.
+Proof.
+  intros HfA HfB HtA HtB Hft H1 H2 s q.
+  rewrite <- app_assoc.
+  rewrite (frun_equiv_app p1 _ _ H1), (frun_equiv_app p2 _ _ H2), (frun_equiv_app p1 _ _ H1), H2.
+  set (g1 := (A, f0)). set (g2 := (B ++ [f0], t)).
+  assert (G1t : forall s', fapp g1 s' f0 = xorb (s' f0) (forallb s' A)) by (intros; apply (fapp_tgt g1)).
+  assert (G1o : forall s' x, x <> f0 -> fapp g1 s' x = s' x) by (intros; now apply (fapp_other g1)).
+  assert (G1A : forall s', forallb (fapp g1 s') A = forallb s' A) by (intros; now apply forallb_fapp).
+  assert (G1B : forall s', forallb (fapp g1 s') B = forallb s' B) by (intros; now apply forallb_fapp).
+  assert (G2t : forall s', fapp g2 s' t = xorb (s' t) (forallb s' B && s' f0)).
+  { intros. rewrite (fapp_tgt g2). cbn [g2 fst snd]. rewrite forallb_app. simpl.
+    now rewrite andb_true_r. }
+  assert (G2o : forall s' x, x <> t -> fapp g2 s' x = s' x) by (intros; now apply (fapp_other g2)).
+  assert (G2A : forall s', forallb (fapp g2 s') A = forallb s' A) by (intros; now apply forallb_fapp).
+  assert (G2B : forall s', forallb (fapp g2 s') B = forallb s' B) by (intros; now apply forallb_fapp).
+  assert (G1ot : forall s', fapp g1 s' t = s' t) by (intros; apply G1o; congruence).
+  assert (G2of : forall s', fapp g2 s' f0 = s' f0) by (intros; apply G2o; congruence).
+  rewrite (fapp_val (A ++ B, t)). cbn [fst snd]. rewrite forallb_app.
+  destruct (Nat.eqb_spec q t) as [->|Hqt].
+  - repeat first [rewrite G2t | rewrite G1ot | rewrite G1t | rewrite G2of
+                 | rewrite G1A | rewrite G1B | rewrite G2A | rewrite G2B].
+    destruct (s t), (s f0), (forallb s A), (forallb s B); reflexivity.
+  - rewrite G2o by assumption.
+    destruct (Nat.eq_dec q f0) as [->|Hqf].
+    + repeat first [rewrite G1t | rewrite G2of | rewrite G1A | rewrite G2A].
+      destruct (s f0), (forallb s A); reflexivity.
+    + rewrite G1o, G2o, G1o by assumption. reflexivity.
+Qed.
+
+(* ------------------------------------------------------------------ 6. the model *)
+Lemma pyget_nat (l : list nat) i : i < length l -> pyget l (Z.of_nat i) = Some (nth i l 0).
+Proof.
+  intros H. unfold pyget. destruct (Z.ltb_spec (Z.of_nat i) 0); [lia|].
+  rewrite Nat2Z.id. now apply nth_error_nth'.
+Qed.
+Lemma pyget_0 (l : list nat) : 0 < length l -> pyget l 0%Z = Some (nth 0 l 0).
+Proof. exact (pyget_nat l 0). Qed.
+Lemma pyget_1 (l : list nat) : 1 < length l -> pyget l 1%Z = Some (nth 1 l 0).
+Proof. exact (pyget_nat l 1). Qed.
+
+Lemma mk_toffoli_ok a b c : a <> b -> a <> c -> b <> c -> mk_toffoli a b c = Some (isort [a; b], c).
+Proof.
+  intros H1 H2 H3. unfold mk_toffoli.
+  apply Nat.eqb_neq in H1, H2, H3. now rewrite H1, H2, H3.
+Qed.
+
+Lemma opt_all_down c f (F : nat -> option cx) k :
+  (forall i, i < k -> F i = Some (gA c f (k - i))) ->
+  opt_all (map F (seq 0 k)) = Some (down c f k).
+Proof.
+  revert F. induction k as [|k IH]; intros F H; [reflexivity|].
+  cbn [seq map]. rewrite <- seq_shift, map_map. cbn [opt_all].
+  rewrite (H 0) by lia. rewrite (IH (fun i => F (S i))).
+  - now rewrite Nat.sub_0_r.
+  - intros i Hi. rewrite H by lia. reflexivity.
+Qed.
+
+Lemma existsb_eqb_false x l : ~ In x l -> existsb (Nat.eqb x) l = false.
+Proof.
+  induction l as [|a l IH]; simpl; intros H; [reflexivity|]. rewrite IH by tauto.
+  destruct (Nat.eqb_spec x a); [subst; tauto | reflexivity].
+Qed.
+
+Lemma overlap_false a b : (forall x, In x a -> ~ In x b) -> overlap a b = false.
+Proof.
+  unfold overlap. induction a as [|y a IH]; simpl; intros H; [reflexivity|].
+  rewrite existsb_eqb_false by (apply H; now left). apply IH. intros; apply H; now right.
+Qed.
+
+Lemma nodup_split (a b : list nat) :
+  NoDup (a ++ b) -> NoDup a /\ NoDup b /\ (forall x, In x a -> In x b -> False).
+Proof.
+  induction a as [|x a IH]; simpl; intros H.
+  - repeat split; [constructor | assumption | tauto].
+  - inversion H as [|? ? Hx Hab]; subst. destruct (IH Hab) as (Ha & Hb & Hd).
+    repeat split; [constructor; [|assumption] | assumption |].
+    + intros Hi. apply Hx. apply in_or_app. now left.
+    + intros y [->|Hy] Hyb; [apply Hx; apply in_or_app; now right | eauto].
+Qed.
+
+Lemma nodup_facts c t f : NoDup (c ++ t :: f) ->
+  (forall i j, i < length c -> j < length f -> nth i c 0 <> nth j f 0)
+  /\ (forall i j, i < length f -> j < length f -> nth i f 0 = nth j f 0 -> i = j)
+  /\ (forall i, i < length c -> t <> nth i c 0)
+  /\ (forall j, j < length f -> t <> nth j f 0).
+Proof.
+  intros H. destruct (nodup_split _ _ H) as (Hc & Htf & Hd).
+  inversion Htf as [|? ? Ht Hf]; subst. repeat split.
+  - intros i j Hi Hj E. apply (Hd (nth i c 0)); [now apply nth_In|]. right. rewrite E. now apply nth_In.
+  - now apply NoDup_nth.
+  - intros i Hi E. apply (Hd t); [rewrite E; now apply nth_In | now left].
+  - intros j Hj E. apply Ht. rewrite E. now apply nth_In.
+Qed.
+
+Lemma nodup_isort c t f : NoDup (c ++ t :: f) -> NoDup (isort c ++ t :: f).
+Proof.
+  intros H. eapply Permutation_NoDup; [|exact H]. apply Permutation_app_tail. symmetry. apply isort_perm.
+Qed.
+
+Lemma overlap_ok c t f : NoDup (c ++ t :: f) -> overlap f (isort c ++ [t]) = false.
+Proof.
+  intros H. apply nodup_isort in H. destruct (nodup_split _ _ H) as (_ & Htf & Hd).
+  inversion Htf as [|? ? Ht Hf]; subst.
+  apply overlap_false. intros x Hx Hin. apply in_app_or in Hin as [Hin|[->|[]]].
+  - apply (Hd x Hin). now right.
+  - contradiction.
+Qed.
+
+Lemma x_step_base rec c t f :
+  length c < 3 -> NoDup (c ++ t :: f) -> x_step rec c t f = Some [(isort c, t)].
+Proof.
+  intros H ND. unfold x_step. cbv zeta. rewrite isort_length.
+  destruct (length c) as [|[|[|n]]] eqn:E; try lia; cbn [Nat.eqb orb]; try reflexivity.
+  rewrite overlap_ok by assumption. reflexivity.
+Qed.
+
+Lemma x_step_branch1 rec c t f :
+  NoDup (c ++ t :: f) -> 3 <= length c -> length c - 2 <= length f ->
+  x_step rec c t f = Some (branch1 (isort c) f t (length c)).
+Proof.
+  intros ND H3 Hf. unfold x_step. cbv zeta. rewrite isort_length.
+  rewrite overlap_ok by assumption.
+  assert (Hcs : length (isort c) = length c) by apply isort_length.
+  apply nodup_isort in ND. destruct (nodup_facts _ _ _ ND) as (Hcf & Hff & Htc & Htf).
+  set (cs := isort c) in *. set (m := length c) in *.
+  rewrite (proj2 (Nat.eqb_neq m 1)), (proj2 (Nat.eqb_neq m 2)) by lia. cbn [orb].
+  rewrite (proj2 (Nat.ltb_ge m 3)) by lia.
+  rewrite (proj2 (Z.leb_le _ _)) by lia. rewrite (proj2 (Nat.leb_le 3 m)) by lia. cbn [andb].
+  rewrite (opt_all_down cs f _ (m - 3)).
+  2:{ intros i Hi. cbv beta zeta.
+      replace (Z.of_nat m - 2 - Z.of_nat i)%Z with (Z.of_nat (m - 2 - i)) by lia.
+      replace (Z.of_nat m - 4 - Z.of_nat i)%Z with (Z.of_nat (m - 4 - i)) by lia.
+      replace (Z.of_nat m - 3 - Z.of_nat i)%Z with (Z.of_nat (m - 3 - i)) by lia.
+      rewrite !pyget_nat by lia. cbn [obind].
+      rewrite mk_toffoli_ok.
+      - unfold gA. replace (m - 3 - i + 1) with (m - 2 - i) by lia. replace (m - 3 - i - 1) with (m - 4 - i) by lia. reflexivity.
+      - apply Hcf; lia.
+      - apply Hcf; lia.
+      - intros E. apply Hff in E; lia. }
+  cbn [obind]. rewrite (pyget_0 cs), (pyget_1 cs), (pyget_0 f) by lia. cbn [obind].
+  rewrite mk_toffoli_ok;
+    [| intros E; apply (NoDup_nth cs 0) in E; [lia | exact (proj1 (nodup_split _ _ ND)) | lia | lia]
+     | apply Hcf; lia | apply Hcf; lia].
+  cbn [obind].
+  replace (Z.of_nat m - 1)%Z with (Z.of_nat (m - 1)) by lia.
+  replace (Z.of_nat m - 3)%Z with (Z.of_nat (m - 3)) by lia.
+  rewrite !pyget_nat by lia. cbn [obind].
+  rewrite mk_toffoli_ok;
+    [| apply Hcf; lia | intros E; symmetry in E; revert E; apply Htc; lia
+     | intros E; symmetry in E; revert E; apply Htf; lia].
+  cbn [obind]. reflexivity.
+Qed.
+
+Lemma x_step_branch2 rec c t f0 F :
+  3 <= length c -> S (length F) < length c - 2 -> NoDup (c ++ t :: f0 :: F) ->
+  x_step rec c t (f0 :: F) =
+    obind (rec (firstn ((length c + 1 + S (length F)) / 2) (isort c)) f0
+               (skipn ((length c + 1 + S (length F)) / 2) (isort c) ++ [t] ++ F)) (fun p1 =>
+    obind (rec (skipn ((length c + 1 + S (length F)) / 2) (isort c) ++ [f0]) t
+               (firstn ((length c + 1 + S (length F)) / 2) (isort c) ++ F)) (fun p2 =>
+    Some ((p1 ++ p2) ++ (p1 ++ p2)))).
+Proof.
+  intros H3 Hf ND. unfold x_step. cbv zeta. rewrite isort_length.
+  rewrite overlap_ok by assumption.
+  set (m := length c) in *.
+  rewrite (proj2 (Nat.eqb_neq m 1)), (proj2 (Nat.eqb_neq m 2)) by lia. cbn [orb].
+  rewrite (proj2 (Nat.ltb_ge m 3)) by lia.
+  cbn [length]. rewrite (proj2 (Z.leb_gt _ _)) by lia. cbn [andb].
+  change (1 <=? S (length F)) with true. cbv iota.
+  rewrite pyget_0 by (cbn [length]; lia). cbn [obind nth skipn]. reflexivity.
+Qed.
+
+(* correctness of a gate list at the level of boolean functions, and its targets *)
+Definition mcx_ok (c : list nat) (t : nat) (f : list nat) (gs : list cx) : Prop :=
+  (forall s q, frun gs s q = fapp (c, t) s q) /\ Forall (fun g => In (snd g) (c ++ t :: f)) gs.
+
+Lemma down_targets c f t k : k < length f -> Forall (fun g : cx => In (snd g) (t :: f)) (down c f k).
+Proof.
+  induction k as [|k IH]; intros H; [constructor|]. cbn [down]. constructor; [|apply IH; lia].
+  right. apply nth_In. lia.
+Qed.
+
+Lemma branch1_targets c f t m : 3 <= m -> m - 2 <= length f ->
+  Forall (fun g : cx => In (snd g) (t :: f)) (branch1 c f t m).
+Proof.
+  intros H3 Hf.
+  assert (Forall (fun g : cx => In (snd g) (t :: f)) (top c f t m :: ladder c f (m - 3))).
+  { constructor; [now left|]. unfold ladder. apply Forall_app. split; [apply down_targets; lia|].
+    constructor; [right; apply nth_In; lia|]. apply Forall_rev, down_targets. lia. }
+  unfold branch1. cbv zeta. apply Forall_app. now split.
+Qed.
+
+(* base case and branch 1: no recursive call is made *)
+Lemma mcx_branch1_ok rec c t f :
+  NoDup (c ++ t :: f) -> (length c < 3 \/ length c - 2 <= length f) ->
+  exists gs, x_step rec c t f = Some gs /\ mcx_ok c t f gs.
+Proof.
+  intros ND H. destruct (Nat.lt_ge_cases (length c) 3) as [Hm|Hm].
+  - exists [(isort c, t)]. split; [now apply x_step_base|]. split.
+    + intros s q. rewrite frun_cons. change (frun [] ?x) with x. apply fapp_perm, isort_perm.
+    + constructor; [|constructor]. apply in_or_app. right. now left.
+  - assert (Hf : length c - 2 <= length f) by lia.
+    exists (branch1 (isort c) f t (length c)). split; [now apply x_step_branch1|].
+    pose proof (nodup_isort _ _ _ ND) as ND'. destruct (nodup_facts _ _ _ ND') as (Hcf & Hff & Htc & Htf).
+    split.
+    + intros s q. rewrite (branch1_spec (isort c) f Hcf Hff t Htc Htf (length c)); try lia.
+      * apply fapp_perm, isort_perm.
+      * apply isort_length.
+    + eapply Forall_impl; [|apply branch1_targets; lia]. intros g Hg. apply in_or_app. now right.
+Qed.
+
+Lemma x_decompose_direct fuel c t f :
+  NoDup (c ++ t :: f) -> (length c < 3 \/ length c - 2 <= length f) ->
+  exists gs, x_decompose fuel c t f = Some gs /\ mcx_ok c t f gs.
+Proof. destruct fuel; cbn [x_decompose]; apply mcx_branch1_ok. Qed.
+
+Lemma nodup_calls (A B : list nat) (t f0 : nat) (F : list nat) : NoDup ((A ++ B) ++ t :: f0 :: F) ->
+  NoDup (A ++ f0 :: (B ++ [t] ++ F)) /\ NoDup ((B ++ [f0]) ++ t :: (A ++ F))
+  /\ ~ In f0 A /\ ~ In f0 B /\ ~ In t A /\ ~ In t B /\ f0 <> t.
+Proof.
+  intros H. rewrite (NoDup_count_occ Nat.eq_dec) in H.
+  assert (K : forall x, count_occ Nat.eq_dec A x + count_occ Nat.eq_dec B x
+                        + (if Nat.eq_dec t x then 1 else 0) + (if Nat.eq_dec f0 x then 1 else 0)
+                        + count_occ Nat.eq_dec F x <= 1).
+  { intros x. specialize (H x). rewrite !count_occ_app in H. cbn [count_occ] in H.
+    destruct (Nat.eq_dec t x), (Nat.eq_dec f0 x); lia. }
+  repeat split.
+  - rewrite (NoDup_count_occ Nat.eq_dec). intros x. specialize (K x).
+    rewrite !count_occ_app. cbn [count_occ]. rewrite !count_occ_app. cbn [count_occ].
+    destruct (Nat.eq_dec t x), (Nat.eq_dec f0 x); lia.
+  - rewrite (NoDup_count_occ Nat.eq_dec). intros x. specialize (K x).
+    rewrite !count_occ_app. cbn [count_occ]. rewrite !count_occ_app. cbn [count_occ].
+    destruct (Nat.eq_dec t x), (Nat.eq_dec f0 x); lia.
+  - rewrite (count_occ_not_In Nat.eq_dec). specialize (K f0).
+    destruct (Nat.eq_dec t f0), (Nat.eq_dec f0 f0); try congruence; lia.
+  - rewrite (count_occ_not_In Nat.eq_dec). specialize (K f0).
+    destruct (Nat.eq_dec t f0), (Nat.eq_dec f0 f0); try congruence; lia.
+  - rewrite (count_occ_not_In Nat.eq_dec). specialize (K t).
+    destruct (Nat.eq_dec t t), (Nat.eq_dec f0 t); try congruence; lia.
+  - rewrite (count_occ_not_In Nat.eq_dec). specialize (K t).
+    destruct (Nat.eq_dec t t), (Nat.eq_dec f0 t); try congruence; lia.
+  - intros ->. specialize (K t). destruct (Nat.eq_dec t t); try congruence; lia.
+Qed.
+
+(* branch 2 given correct recursive calls (Lemma 7.3 composition), then the full statement *)
+Theorem x_decompose_ok fuel c t f :
+  1 <= fuel -> NoDup (c ++ t :: f) ->
+  (length c < 3 \/ length c - 2 <= length f \/ 1 <= length f) ->
+  exists gs, x_decompose fuel c t f = Some gs /\ mcx_ok c t f gs.
+Proof.
+  intros Hfuel ND Hadm.
+  destruct (Nat.lt_ge_cases (length c) 3) as [Hm|Hm]; [apply x_decompose_direct; auto|].
+  destruct (Nat.le_gt_cases (length c - 2) (length f)) as [Hb|Hb]; [apply x_decompose_direct; auto|].
+  destruct f as [|f0 F]; [simpl in Hadm; lia|]. cbn [length] in Hb.
+  destruct fuel as [|fuel]; [lia|]. cbn [x_decompose].
+  rewrite x_step_branch2 by assumption.
+  set (m := length c) in *. set (n := m + 1 + S (length F)). set (m1 := n / 2).
+  assert (Hm1 : 2 * m1 <= n < 2 * m1 + 2).
+  { pose proof (Nat.div_mod n 2 ltac:(lia)). pose proof (Nat.mod_upper_bound n 2 ltac:(lia)).
+    fold m1 in H. lia. }
+  assert (Hcs : length (isort c) = m) by apply isort_length.
+  set (cs := isort c) in *. set (A := firstn m1 cs). set (B := skipn m1 cs).
+  assert (HAB : A ++ B = cs) by apply firstn_skipn.
+  assert (HlA : length A = m1) by (apply firstn_length_le; unfold n in Hm1; lia).
+  assert (HlB : length B = m - m1) by (unfold B; rewrite skipn_length; lia).
+  pose proof (nodup_isort _ _ _ ND) as ND'. fold cs in ND'. rewrite <- HAB in ND'.
+  destruct (nodup_calls _ _ _ _ _ ND') as (ND1 & ND2 & HfA & HfB & HtA & HtB & Hft).
+  destruct (x_decompose_direct fuel A f0 (B ++ [t] ++ F) ND1) as (p1 & E1 & S1 & T1).
+  { right. rewrite !app_length. cbn [length]. unfold n in Hm1. lia. }
+  destruct (x_decompose_direct fuel (B ++ [f0]) t (A ++ F) ND2) as (p2 & E2 & S2 & T2).
+  { right. rewrite !app_length. cbn [length]. unfold n in Hm1. lia. }
+  rewrite E1, E2. cbn [obind]. eexists. split; [reflexivity|].
+  assert (Hin : forall x, In x c <-> In x A \/ In x B).
+  { intros x. rewrite <- in_app_iff, HAB. split; apply Permutation_in;
+      [symmetry|]; apply isort_perm. }
+  split.
+  - intros s q. rewrite (lemma73 A B f0 t p1 p2) by assumption.
+    apply fapp_perm. rewrite HAB. apply isort_perm.
+  - repeat (apply Forall_app; split).
+    all: (eapply Forall_impl; [|eassumption]); intros g; rewrite !in_app_iff; simpl;
+      rewrite !in_app_iff, Hin; simpl; tauto.
+Qed.
+
+(* >= 3 controls and no free qubit: the real code raises NotImplementedError *)
+Lemma x_decompose_no_free fuel c t : 3 <= length c -> x_decompose fuel c t [] = None.
+Proof.
+  intros H.
+  assert (forall rec, x_step rec c t [] = None); [|destruct fuel; cbn [x_decompose]; auto].
+  intros rec. unfold x_step. cbv zeta. rewrite isort_length.
+  set (m := length c) in *.
+  rewrite (proj2 (Nat.eqb_neq m 1)), (proj2 (Nat.eqb_neq m 2)) by lia. cbn [orb overlap existsb].
+  rewrite (proj2 (Nat.ltb_ge m 3)) by lia.
+  cbn [length]. rewrite (proj2 (Z.leb_gt _ _)) by lia. reflexivity.
+Qed.
+
+(* ------------------------------------------------------------------ list-level statements *)
+Theorem x_decompose_correct fuel c t f N :
+  1 <= fuel -> NoDup (c ++ t :: f) -> (forall q, In q (c ++ t :: f) -> q < N) ->
+  (length c < 3 \/ 2 * length c - 1 <= length c + 1 + length f \/ 1 <= length f) ->
+  exists gs, x_decompose fuel c t f = Some gs
+             /\ forall b, length b = N -> run_cx gs b = mcx_spec c t b.
+Proof.
+  intros Hfuel ND Hlt Hadm.
+  destruct (x_decompose_ok fuel c t f Hfuel ND) as (gs & E & Hs & Ht); [lia|].
+  exists gs. split; [assumption|].
+  apply frun_to_lists; [assumption| |].
+  - eapply Forall_impl; [|exact Ht]. intros g Hg. now apply Hlt.
+  - apply Hlt. apply in_or_app. right. now left.
+Qed.
+
+Theorem mcx_decompose_correct c t f N :
+  NoDup (c ++ t :: f) -> (forall q, In q (c ++ t :: f) -> q < N) ->
+  (length c < 3 \/ 2 * length c - 1 <= length c + 1 + length f \/ 1 <= length f) ->
+  exists gs, mcx_decompose c t f = Some gs
+             /\ forall b, length b = N -> run_cx gs b = mcx_spec c t b.
+Proof.
+  intros ND Hlt Hadm. unfold mcx_decompose.
+  destruct (Nat.lt_ge_cases (length c) 3) as [Hm|Hm].
+  - destruct (x_decompose_direct (length c) c t f ND) as (gs & E & Hs & Ht); [now left|].
+    exists gs. split; [assumption|]. apply frun_to_lists; [assumption| |].
+    + eapply Forall_impl; [|exact Ht]. intros g Hg. now apply Hlt.
+    + apply Hlt. apply in_or_app. right. now left.
+  - apply x_decompose_correct; auto. lia.
+Qed.
+
+(* the borrowed work bits (and the controls) come back unchanged, whatever their values *)
+Theorem mcx_decompose_restores c t f N :
+  NoDup (c ++ t :: f) -> (forall q, In q (c ++ t :: f) -> q < N) ->
+  (length c < 3 \/ 2 * length c - 1 <= length c + 1 + length f \/ 1 <= length f) ->
+  exists gs, mcx_decompose c t f = Some gs
+             /\ forall b, length b = N ->
+                  (forall q, q <> t -> nth q (run_cx gs b) false = nth q b false)
+                  /\ nth t (run_cx gs b) false
+                     = xorb (nth t b false) (forallb (fun k => nth k b false) c).
+Proof.
+  intros ND Hlt Hadm. destruct (mcx_decompose_correct c t f N ND Hlt Hadm) as (gs & E & H).
+  exists gs. split; [assumption|]. intros b Hb. rewrite (H b Hb). split.
+  - intros q Hq. now apply mcx_spec_keeps_other_bits.
+  - assert (Ht : t < length b) by (rewrite Hb; apply Hlt; apply in_or_app; right; now left).
+    unfold mcx_spec. change (nth t (apply_cx (c, t) b) false) with (getb (apply_cx (c, t) b) t).
+    rewrite apply_cx_get by assumption. rewrite (fapp_tgt (c, t)). reflexivity.
+Qed.
